@@ -28,6 +28,10 @@ def _report(ctx, kind, rep):
         if "| IDENTIFY obs " in row and re.search(r"zip=(snappy|deflate)", row):
             # one defect, many table rows: SetOutputBuffer rebuilds the writer on the raw connection
             key = "identify output_buffer_size on an upgraded connection"
+        seen = ctx.notes.setdefault("violation_keys", {})
+        seen[key] = seen.get(key, 0) + 1
+        if seen[key] > 1:
+            continue        # one report (and one replay file) per key; the count is in the evidence notes
         ctx.violation("%s: real nsqd broke the protocol table: [%s] %s -- %s" % (kind, m["kind"], m.get("row", ""), m["what"]),
                       _replay_path(ctx, "%s-%s-%s" % (kind, m["kind"], hashlib.md5(key.encode()).hexdigest()[:8]), m), key=key)
     for m in rep.get("drift") or []:
